@@ -53,6 +53,8 @@ class Channel:
         self.inited = False
         self.active = True
         self.maxdelay = tape.draw(f"c28/{name}/maxdelay", 5)
+        self.linger = tape.pick(f"c28/{name}/init-accept-lingers", [0, 0, 1, 2, 4])
+        self.ia_linger = 0
         # in few runs the terminal sits on one chunk for hundreds of cycles (line busy,
         # flow control): the chunk has to stay presented, announced once
         self.long_at = tape.draw(f"c28/{name}/long-accept-at", 6) \
@@ -67,10 +69,19 @@ class Channel:
         tr, ra, ir = bool(out[0] & 1), bool(out[0] & 2), bool(out[0] & 4)
         n = out[1]
         data = bytes(out[2:2 + min(n, 22)])
-        self.ia = ir            # init handshake: accept follows the request
+        # init handshake: accept follows the request; once the request is dropped the
+        # terminal may take a few cycles to drop its accept (it works again meanwhile)
         if ir:
+            self.ia = True
+            self.ia_linger = self.linger
             self.inited = True
             self.last_tr, self.last_ra = tr, ra
+        elif self.ia:
+            if self.ia_linger > 0:
+                self.ia_linger -= 1
+                self.world.count("c28/init-accept-still-shown-while-working")
+            else:
+                self.ia = False
         # ---- master -> terminal
         if self.pending is not None:
             chunk, left = self.pending
@@ -140,6 +151,7 @@ def run(tape, scenario):
     # in some runs a cyclic frame is lost now and then: the group re-sends after its 20 ms
     # timeout, which must not disturb the handshake (no loss during start-up: no retry there)
     loss_rate = tape.pick("cfg/loss", [0, 0, 0, 3, 10])
+    unprocessed = tape.pick("cfg/unprocessed-datagrams", [0, 0, 0, 2, 6])
     # (frames that come back later than that timeout are not injected: a stale input image
     # arriving after a newer one makes the unchanged Serial deliver a received chunk twice;
     # that is a bus fault outside this property's quantifier, see DESIGN.md 11.6, C28-i)
@@ -195,6 +207,12 @@ def run(tape, scenario):
     def update_devices(data):
         cycles[0] += 1
         wf.loss = loss_rate if not finishing[0] else 0
+        if unprocessed and cycles[0] == 3:
+            # from now on the terminal now and then lets a cyclic datagram pass unprocessed
+            # (working counter 0): what comes back is what was sent, the handshake bits
+            # of the last image included
+            st.skip_datagram = lambda d: not finishing[0] and tape.chance(
+                "fault/cyclic-datagram-not-processed", unprocessed)
         for i in range(nch):
             a = app[i]
             if a["active"] and a["rate"] and tape.chance(f"c28/app{i}/write", a["rate"]):
